@@ -13,6 +13,7 @@ import (
 	"verif/internal/c11"
 	"verif/internal/c10"
 	"verif/internal/c15"
+	"verif/internal/c19"
 	"verif/internal/c16"
 	"verif/internal/c17"
 	"verif/internal/scen"
@@ -28,6 +29,7 @@ var checks = map[string]func(tier, replay string){
 	"C10": c10.Main,
 	"C18": c10.Main18,
 	"C15": c15.Main,
+	"C19": c19.Main,
 	"C16": c16.Main,
 	"C17": c17.Main,
 }
